@@ -26,19 +26,20 @@ import (
 )
 
 type c02Epochs struct {
-	t         *rapid.T
-	c         *stats.Collector
-	r         *rig.Rig
-	p         *peer.Peer
-	cfg       rig.Config
-	persist   bool
-	storeKind string
-	next      int            // model: next unused outbound number
-	saved     map[int][]byte // model: bytes saved in the current epoch
-	lastFirst int            // highest first-time number transmitted in the current epoch
-	log       []string
-	feat      map[string]bool
-	appFlag   bool // the application sets 141=Y on the next outgoing Logon
+	t            *rapid.T
+	c            *stats.Collector
+	r            *rig.Rig
+	p            *peer.Peer
+	cfg          rig.Config
+	persist      bool
+	storeKind    string
+	next         int            // model: next unused outbound number
+	saved        map[int][]byte // model: bytes saved in the current epoch
+	lastFirst    int            // highest first-time number transmitted in the current epoch
+	log          []string
+	feat         map[string]bool
+	appFlag      bool // the application sets 141=Y on the next outgoing Logon
+	declineEvery int  // the application declines sends whose id ends in a multiple of this digit (0 = none)
 }
 
 func (e *c02Epochs) logf(format string, a ...interface{}) {
@@ -60,6 +61,10 @@ func (e *c02Epochs) open() {
 			m.Body.SetBool(141, true)
 			e.feat["application-set-reset-flag"] = true
 		}
+	}
+	r.RefuseSend = func(_ string, m *quickfix.Message) bool {
+		id, _ := m.Body.GetString(11)
+		return e.declineEvery != 0 && len(id) > 0 && int(id[len(id)-1]-'0')%e.declineEvery == 0
 	}
 	e.r = r
 	e.next = r.S()
@@ -156,6 +161,7 @@ func c02EpochsProperty(t *rapid.T) {
 		}
 	}
 	e.p = peer.New(begin, "PEER", "ENG")
+	e.declineEvery = rapid.SampledFrom([]int{0, 0, 3, 4}).Draw(t, "decline-every")
 	e.open()
 	defer func() { e.r.Close() }()
 	n := 0
